@@ -248,3 +248,73 @@ func MsgKind(sp *spec.Spec, a *spec.Attr) string {
 	}
 	return k
 }
+
+// StreamInvalid builds C04's cases for a client or bidirectional (phased) streaming method: a short valid sequence of
+// streamed messages in which ONE message carries a boundary probe of a validation rule of the streaming payload type
+// (both sides of the rule: the oracle decides validity). Every fourth case goes through the lab's own websocket client.
+// Methods whose streaming payload has no validation rule yield nothing.
+func StreamInvalid(sp *spec.Spec, sv *spec.Service, m *spec.Method, r *vc.Rand, n int, startID int) []*rt.Case {
+	if m.HTTP == nil || (m.Stream != "client" && m.Stream != "bidi") || m.StreamP == nil {
+		return nil
+	}
+	var out []*rt.Case
+	for i := 0; i < n; i++ {
+		rr := r.Fork(uint64(i))
+		seq := sequence(sp, m.StreamP, rr.Fork(3), "random", 3)
+		if len(seq) == 0 {
+			continue
+		}
+		k := rr.Intn(len(seq))
+		msg := vtree.Clone(seq[k])
+		g := &valgen.G{S: sp, R: rr.Fork(5)}
+		sites := Sites(sp, g, m.StreamP.Type, m.StreamP.Val, msg, "", valgen.Body, func(nv any) { msg = nv }, 0)
+		if len(sites) == 0 {
+			return out
+		}
+		site := sites[(i*7+rr.Intn(len(sites)))%len(sites)]
+		site.Apply()
+		seq[k] = msg
+		c := &rt.Case{ID: startID + len(out), Svc: sv.Name, Method: m.Name}
+		c.Sent, c.NoPay = Payload(sp, m, rr.Fork(1), 1)
+		if c.Sent == nil && !c.NoPay && m.Payload != nil {
+			continue
+		}
+		sc := &rt.StreamScript{Kind: m.Stream, Send: seq}
+		oc := &rt.Outcome{Kind: "result"}
+		if m.Stream == "client" {
+			if m.Result != nil {
+				oc.Result = Result(sp, m, rr.Fork(4), 1)
+			}
+		} else {
+			sc.Proto = "phased"
+			oc.StreamResults = sequence(sp, m.Result, rr.Fork(2), "random", 2)
+		}
+		if v := viewsOf(sp, m); len(v) > 0 {
+			oc.View = v[0]
+		}
+		label := "stream-probe:" + site.Rule + ":" + site.Side
+		if i%4 == 3 {
+			if rq, err := Raw(sp, sv, m, c.Sent, i%len(m.HTTP.Routes)); err == nil && len(rq.Body) == 0 {
+				ok := true
+				for _, tr := range sc.Send {
+					f, err := RawFrame(tr)
+					if err != nil {
+						ok = false
+						break
+					}
+					sc.RawFrames = append(sc.RawFrames, f)
+				}
+				if ok {
+					c.Raw = rq
+					sc.RawClient = true
+					label += "-raw"
+				}
+			}
+		}
+		c.Class = label
+		c.Stream, c.Outcome = sc, oc
+		c.Note = map[string]any{"stream_probe_index": k, "site": site.Desc, "stream_sig": fmt.Sprintf("%s|%s|probe", m.Stream, MsgKind(sp, m.StreamP))}
+		out = append(out, c)
+	}
+	return out
+}
